@@ -457,7 +457,11 @@ where
         } else {
             working
                 .iter()
-                .map(|c| N::from_real(c.re) + (-N::one()).sqrt() * N::from_real(c.im))
+                .map(|c| {
+                    // sqrt(-1 + 0i) is i, whereas -N::one() is -1 - 0i whose root is -i
+                    let i = N::from_real(-N::RealField::one()).sqrt();
+                    N::from_real(c.re) + i * N::from_real(c.im)
+                })
                 .collect::<Vec<_>>()
         };
 
